@@ -20,7 +20,7 @@ def generate(seed, tier):
     rng = stream(seed, "c06")
     big = tier == "thorough" and rng.random() < 0.15
     names, style = gen_filter(rng, None, p_none=0.4)
-    spec = gen_instance(rng, max_jobs=6 if big else 4, max_machines=5 if big else 4, max_ops=6 if big else 4,
+    spec = gen_instance(rng, huge=0.03, max_jobs=6 if big else 4, max_machines=5 if big else 4, max_ops=6 if big else 4,
                         positive=True if names else None)
     faulty = rng.random() < 0.4
     sparse = rng.random() < 0.3
@@ -29,7 +29,15 @@ def generate(seed, tier):
                            stop_early=0.0 if sparse else 0.1)
     # "sparse": the user looks at the clock only now and then (a seeded subset of the steps, and whenever the
     # schedule is complete); monotonicity between the observed states still has to hold
-    return {"prop": PROP, "cfg": {"instance": spec, "filter": names, "filter_style": style,
+    # the usual company: observers that read the dispatcher's queries inside their callbacks (positive durations
+    # only, as the residual updater requires)
+    obs = []
+    if all(d > 0 for job in spec["jobs"] for _, d in job) and rng.random() < 0.3:
+        from ..dworld import BUILDERS
+        obs = [{"t": "residual", "builder": rng.choice(BUILDERS), "rm": True, "rj": True}]
+        if rng.random() < 0.5:
+            obs = [{"t": "is_scheduled", "ft": None}, {"t": "duration", "ft": None}] + obs
+    return {"prop": PROP, "cfg": {"instance": spec, "filter": names, "filter_style": style, "observers": obs,
                                   "observe": [int(rng.random() < 0.15) for _ in ops] if sparse else None}, "ops": ops}
 
 
